@@ -162,8 +162,12 @@ def Opts.merge (o : Opts) : Override → Opts
   | .none => o
   -- `Options(no_data_loss=True, …)` carries `addition=False` (options.py:151-155 since fix 64ecb5e); merged over
   -- the inherited options (`__and__`) it replaces their `addition`
-  | .strict => { o with ndl := true, nec := true, addition := .no }
-  | .noLoss => { o with ndl := true, addition := .no }
+  -- since fix e7d1ed5 the two trial stages also run with invalid_items / invalid_keys / invalid_values = throw
+  -- (rule.py:398-402, 418-420): only the stage whose result is returned applies the declared policies
+  | .strict => { o with ndl := true, nec := true, addition := .no,
+                        invalidItems := .throw, invalidKeys := .throw, invalidValues := .throw }
+  | .noLoss => { o with ndl := true, addition := .no,
+                        invalidItems := .throw, invalidKeys := .throw, invalidValues := .throw }
 
 /-- `context.enter(route, options)` (options.py:389-405): same options (merged), fresh error lists -/
 def Ctx.enter (c : Ctx) (ov : Override := .none) : Ctx := clean0 c.mode (c.o.merge ov)
@@ -773,19 +777,26 @@ def posStep (rec : P) (m : Mode) (o : Opts) (sg : Sig) (acc : List Val × List S
       | .abort e x => .abort e x
 
 /-- one iteration of the loop over the positional-only parameters (func.py:657-677): one that was not given is
-reported absent when required, otherwise its default is appended in its own slot; its name joins `parsed_keys`
-(unless it was reported) -/
+reported absent when required, otherwise its default is appended in its own slot; its name joins `parsed_keys` -/
 def posOnlyStep (acc : List Val × List String) (it : FieldDecl × Nat) : Step (List Val × List String) :=
   if acc.2.contains it.1.name then .keep acc
-  else if it.1.required then .report { kind := .absence, item := some it.1.name } acc
+  -- since fix 1d9950e the reported one joins `parsed_keys` too: the keywords are parsed without it (func.py:681-686)
+  else if it.1.required then .report { kind := .absence, item := some it.1.name } (acc.1, acc.2 ++ [it.1.name])
   else
     match it.1.default with
     | some d => .keep (if acc.1.length == it.2 then acc.1 ++ [d] else acc.1, acc.2 ++ [it.1.name])
     | none => .keep (acc.1, acc.2 ++ [it.1.name])
 
+/-- a parameter bound by position and given again by keyword: Python's own `TypeError`, raised before anything is
+parsed, whatever the mode and the lookup strategy (func.py:627-642, fix 96c9822) -/
+def dupKw (sg : Sig) (args : List Val) (kwargs : Data) : Bool :=
+  !args.isEmpty && !kwargs.isEmpty &&
+  kwargs.any fun kv => ((sg.decl.take sg.npos).take args.length).any fun f => !f.posOnly && f.name == kv.1
+
 /-- `FunctionParser.parse_params` (func.py:611-683) on a fresh context: positional arguments, positional-only
 parameters that were not given, the keyword mapping, `raise_error()` -/
 def parseCall (rec : P) (sg : Sig) (c : Ctx) (args : List Val) (kwargs : Data) : Ctx × Res (List Val × Data) :=
+  if dupKw sg args kwargs then (c, .error (.raw { kind := .other })) else
   andThen (runLoop (posStep rec c.mode c.o sg) c args.zipIdx ([], [])) fun c1 acc =>
   andThen (runLoop posOnlyStep c1 (sg.decl.take sg.nposOnly).zipIdx acc) fun c1' acc' =>
   andThen (parseData rec sg.decl acc'.2 true c1' kwargs) fun c2 kw =>
